@@ -681,11 +681,50 @@ def run(rep: Report, ctx: Any) -> str:
     return LEVEL
 
 
+def _composition(ix: Any) -> tuple[Any, Any, list[Any], list[Any]]:
+    """(entry, home, region, nested): _process_properties; the function of its region in which the state of the composition lives; the
+    functions of the region (private helpers it calls, methods of the private records they make) and the functions nested in these.
+    The home is where the mapping that collects the properties of the composed model is created: _process_properties itself, or - when it
+    only hands on to a function that does the work (and, say, converts how that one reports failure) - that function.  Variables are named
+    as the home names them; a helper that is handed them, sees them as a closure or hands them back knows them by alias."""
+    entry = ix.func("model_property._process_properties")
+    reg = _with_record_methods(ix, region(ix, entry))
+    nested = [h for h in ix.all_functions if h.parent is not None and any(_encloses(g, h) for g in reg)]
+    return entry, _state_owner(entry, reg + nested), reg, nested
+
+
+def _state_owner(entry: Any, funcs: list[Any]) -> Any:
+    """the function that creates (binds by an assignment of its own) the mapping the functions of the region store properties into"""
+    al = Aliases([entry, *funcs])
+    by_qual = {f.qual: f for f in [entry, *funcs]}
+    owners: list[Any] = []
+    for outward in (True, False):  # a store made by a function that was handed the mapping says most; else any store
+        for g in by_qual.values():
+            for n in _own_nodes(g.node):
+                for var in _store_targets(n, local_names(g.node) if outward else set()):
+                    base = var.split(".", 1)[0]
+                    al.up.setdefault((g.qual, base), (g.qual, base))
+                    root = al._find((g.qual, base))
+                    for (q, name) in list(al.up):
+                        f = by_qual.get(q)
+                        if f is not None and "." not in name and al._find((q, name)) == root and \
+                                any(isinstance(x, ast.Name) and isinstance(x.ctx, ast.Store) and x.id == name for x in _own_nodes(f.node)) and \
+                                name not in {x for y in _own_nodes(f.node) if isinstance(y, (ast.Nonlocal, ast.Global)) for x in y.names} and \
+                                f not in owners:
+                            owners.append(f)
+        if owners:
+            break
+    if not owners or any(f.qual == entry.qual for f in owners):
+        return entry
+    outer = [f for f in owners if not any(_encloses(o, f) for o in owners)]
+    return outer[0]
+
+
 def check_no_parent_mutation(rep: Report, ctx: Any, rid: str) -> None:
     """property objects inherited from a referenced parent are shared: never mutated while composing a child (C15 / C02)"""
     ix = ctx.py
-    pp = ix.func("model_property._process_properties")
-    funcs = _unique(_with_record_methods(ix, region(ix, pp)))
+    _, pp, reg, _ = _composition(ix)
+    funcs = _unique(reg)
     found = _find_allof_loop(pp, funcs)
     decision = _find_member_decision(found[1], found[2]) if found else None
     at = where(found[0], decision[0]) if found and decision else where(pp, pp.node)  # where the rule looks when there is nothing to report
@@ -1665,9 +1704,7 @@ def _required_and_members(rep: Report, ctx: Any, cfgs: dict[str, CFG]) -> None:
         rep.check(ok, "R15.2", "_merge_common_attributes::required-disjunction", "merged requiredness is not `current.required or override.required`",
                   where(g, node), lhs=norm(value), rhs=" or ".join(sorted(want)))
 
-    pp = ix.func("model_property._process_properties")
-    reg = _with_record_methods(ix, region(ix, pp))
-    nested = [h for h in ix.all_functions if h.parent is not None and _encloses(pp, h)]  # part of the region whatever they are called
+    _, pp, reg, nested = _composition(ix)  # nested functions are part of the region whatever they are called
     funcs = _unique(reg)
     _aliases(pp, reg + nested)
     # the places the rules look at are found by what they do, in _process_properties or in a function it hands its state to (or that hands
@@ -1907,9 +1944,8 @@ def _binder(fn: ast.AST, node: ast.AST, name: str) -> ast.For | ast.comprehensio
 
 def _imports_of_every_property(rep: Report, ctx: Any, cfgs: dict[str, CFG]) -> None:
     ix = ctx.py
-    pp = ix.func("model_property._process_properties")
-    nested = [h for h in ix.all_functions if h.parent is not None and _encloses(pp, h)]
-    funcs = list({f.qual: f for f in [*_with_record_methods(ix, region(ix, pp)), *nested]}.values())
+    _, pp, reg, nested = _composition(ix)
+    funcs = list({f.qual: f for f in [*reg, *nested]}.values())
     # roles: the result (the call that hands back the two property lists and the two import sets), the mapping every property of the
     # composed model is stored in, the two result lists - each as _process_properties calls them
     fields = list(ix.cls("_PropertyData").fields)
@@ -1981,9 +2017,8 @@ def _imports_of_every_property(rep: Report, ctx: Any, cfgs: dict[str, CFG]) -> N
 
 def _python_names_compared(rep: Report, ctx: Any, cfgs: dict[str, CFG]) -> None:
     ix = ctx.py
-    pp = ix.func("model_property._process_properties")
-    nested = [h for h in ix.all_functions if h.parent is not None and _encloses(pp, h)]
-    funcs = list({f.qual: f for f in [*_with_record_methods(ix, region(ix, pp)), *nested]}.values())
+    _, pp, reg, nested = _composition(ix)
+    funcs = list({f.qual: f for f in [*reg, *nested]}.values())
     _aliases(pp, funcs)
     # the mapping (as _process_properties calls it) and the statements that store into it
     stores: list[tuple[Any, ast.stmt]] = []
@@ -2404,6 +2439,25 @@ def _inlined(e: ast.expr, g: Any, reg: list[Any], depth: int = 2) -> ast.expr:
     return Inline().visit(copy.deepcopy(e))
 
 
+def _converted_exceptions(reg: list[Any]) -> set[str]:
+    """the exception classes that a function of the region catches and answers with a return: raising one of them below that function is
+    how the region returns (an error) from anywhere in it"""
+    out: set[str] = set()
+    for g in reg:
+        for h in ast.walk(g.node):
+            if isinstance(h, ast.ExceptHandler) and h.type is not None and any(isinstance(x, ast.Return) and x.value is not None for b in h.body for x in ast.walk(b)):
+                out |= {norm(t).rsplit(".", 1)[-1] for t in (h.type.elts if isinstance(h.type, ast.Tuple) else [h.type])}
+    return out - {"Exception", "BaseException"}
+
+
+def _raises_into(n: object, converted: set[str]) -> bool:
+    """statement n raises an exception of a class that the region converts into what it returns"""
+    if not isinstance(n, ast.Raise) or n.exc is None:
+        return False
+    e = n.exc
+    return (call_name(e) if isinstance(e, ast.Call) else norm(e)).rsplit(".", 1)[-1] in converted
+
+
 def _parents_first(rep: Report, ctx: Any, cfgs: dict[str, CFG]) -> None:
     ix = ctx.py
     pm = ix.func("properties._process_models")
@@ -2526,8 +2580,8 @@ def _parents_first(rep: Report, ctx: Any, cfgs: dict[str, CFG]) -> None:
     # the decision is whatever test, read with what its locals hold, looks at the two property lists of the parent and has an outcome
     # that ends in an error.  It is evaluated for the lists as they can be: None before the parent is processed, lists - empty ones
     # too - afterwards.
-    pp = ix.func("model_property._process_properties")
-    preg = _with_record_methods(ix, region(ix, pp))
+    _, pp, preg, _ = _composition(ix)
+    converted = _converted_exceptions(preg)
     unprocessed = {a: None for a in _PARENT_LISTS}
     processed = [dict(zip(_PARENT_LISTS, v)) for v in itertools.product([[], [object()]], repeat=2)]
     found, reported, refused = False, False, []
@@ -2540,7 +2594,7 @@ def _parents_first(rep: Report, ctx: Any, cfgs: dict[str, CFG]) -> None:
             test = _inlined(s.test, g, preg)
             if not any(isinstance(a, ast.Attribute) and a.attr in _PARENT_LISTS for a in ast.walk(test)):
                 continue
-            is_err = lambda n: isinstance(n, ast.Return) and constructs_error(n.value)  # noqa: E731
+            is_err = lambda n: (isinstance(n, ast.Return) and constructs_error(n.value)) or _raises_into(n, converted)  # noqa: E731
             err_on = [v for v in (True, False) for entry in [_arm_entries(gcfg, s, v)[0]]
                       if is_err(entry) or EXIT not in gcfg.reachable_from(entry, avoid=is_err)]
             if len(err_on) != 1:
